@@ -7,7 +7,9 @@ import threading
 
 class Scheduler:
     def __init__(self, order, timeout=10.0):
-        self.order = list(order)          # thread names, one entry per executed block, in global order
+        # thread names, one entry per executed block, in global order; "name+" marks a first block that began at the thread's start
+        self.merged_threads = {x[:-1] for x in order if x.endswith("+")}
+        self.order = [x.rstrip("+") for x in order]
         self.pos = 0
         self.running = None
         self.cv = threading.Condition()
@@ -15,10 +17,16 @@ class Scheduler:
         self.failed = None
         self.done = set()
         self.trace = []
+        self.merge_first = set()          # threads whose start segment and first block are one atomic block
 
     def gate(self, name, what):
         """called by thread `name` at a yield point: give up the processor and wait for its next slot"""
         with self.cv:
+            if name in self.merge_first and what != "start":
+                # the first yield point of a thread continues the block that began at its start
+                self.merge_first.discard(name)
+                self.trace.append((name, what + " (same block)"))
+                return
             if self.running == name:
                 self.running = None
                 self.cv.notify_all()
@@ -47,6 +55,21 @@ class Scheduler:
             self.cv.notify_all()
 
 
+class UnitScheduler(Scheduler):
+    """reference executions: a thread is switched only where one of its atomic units starts (unit_start(thread, what)); one
+    schedule entry per unit"""
+
+    def __init__(self, order, unit_start, timeout=10.0):
+        super().__init__(order, timeout)
+        self.unit_start = unit_start
+        self.merged_threads = set()
+
+    def gate(self, name, what):
+        if what != "start" and not self.unit_start(name, what):
+            return
+        super().gate(name, what)
+
+
 class GateLock:
     def __init__(self, real, sched, name):
         self.real, self.sched, self.name = real, sched, name
@@ -55,7 +78,8 @@ class GateLock:
     def __enter__(self):
         me = threading.current_thread().name
         if self.depth.get(me, 0) == 0 and me in _REGISTERED:
-            self.sched.gate(me, "acquire " + self.name)
+            import sys
+            self.sched.gate(me, "acquire " + self.name + " in " + sys._getframe(1).f_code.co_name)
         self.depth[me] = self.depth.get(me, 0) + 1
         self.real.acquire()
         return self
@@ -125,6 +149,8 @@ def run_schedule(order, thread_fns, sched=None, mk_thread=None):
 
     def runner(name, fn):
         try:
+            if name in getattr(sched, "merged_threads", ()):
+                sched.merge_first.add(name)
             sched.gate(name, "start")
             results[name] = ("ok", fn())
         except SystemExit:
